@@ -56,6 +56,11 @@ pub struct ModSpec {
     /// modules without a restart request)
     #[serde(default)]
     pub panic_on: Option<u8>,
+    /// the handler additionally schedules this many zero-delay messages to its own module (ids 5000.., header kind
+    /// 77), one after the other: they arrive at the same instant as events of their own, in the order they were
+    /// scheduled, each bracketed by the whole stack; their handler only records them (same restriction as the burst)
+    #[serde(default)]
+    pub handler_selfs: u8,
 }
 
 #[derive(Clone, Debug, Serialize, Deserialize)]
@@ -130,6 +135,7 @@ struct M {
     own_as_block: bool,
     handler_burst: u8,
     panic_on: Option<usize>,
+    handler_selfs: u8,
 }
 
 fn panic_of(m: &ModSpec, global: &[Elem]) -> Option<usize> {
@@ -193,6 +199,9 @@ impl Module for M {
     fn handle_message(&mut self, msg: Message) {
         let id = msg.header().id;
         net::log("h-msg", id as i64, 0);
+        if msg.header().kind == 77 {
+            return;
+        }
         if self.panic_on == Some(self.seen + 1) {
             panic!("injected fault in handle_message");
         }
@@ -203,6 +212,9 @@ impl Module for M {
         for j in 0..self.handler_burst as u16 {
             net::log("send", 4000 + j as i64, 0);
             send_in(Message::default().id(4000 + j), "out", Duration::from_millis(BURST_DELAYS_MS[j as usize % 3]));
+        }
+        for j in 0..self.handler_selfs as u16 {
+            schedule_in(Message::default().kind(77).id(5000 + j), Duration::ZERO);
         }
         self.seen += 1;
         if let Some((n, delay)) = self.restart {
@@ -246,6 +258,14 @@ fn burst_of(m: &ModSpec, global: &[Elem]) -> u8 {
         0
     } else {
         m.handler_burst % 48
+    }
+}
+
+fn selfs_of(m: &ModSpec, global: &[Elem]) -> u8 {
+    if restart_of(m).is_some() || panic_of(m, global).is_some() {
+        0
+    } else {
+        m.handler_selfs % 6
     }
 }
 
@@ -300,6 +320,7 @@ pub fn run_case(case: &Case) -> Result<(bool, Vec<&'static str>), Failure> {
                 own_as_block: m.own_as_block,
                 handler_burst: burst_of(m, &case.global),
                 panic_on: panic_of(m, &case.global),
+                handler_selfs: selfs_of(m, &case.global),
             },
         );
     }
@@ -423,6 +444,8 @@ pub fn run_case(case: &Case) -> Result<(bool, Vec<&'static str>), Failure> {
         }
         let handled = matches!((msg, cur), (Some(_), Some(_)));
         match (msg, cur, handler) {
+            // one of the handler's own zero-delay messages: only recorded
+            (Some(_), Some(id), Some(("echo", _))) => want.push(rec(p, "h-msg", id as i64, 0, now)),
             (Some(_), Some(id), _) if panic_of(mods[i], &case.global) == Some(seen.borrow()[i] + 1) => {
                 // the handler panics right after it was entered; the panic is caught
                 want.push(rec(p, "h-msg", id as i64, 0, now));
@@ -467,6 +490,7 @@ pub fn run_case(case: &Case) -> Result<(bool, Vec<&'static str>), Failure> {
     let mut restart_stage_events = 0;
     let mut ignored_while_down = 0;
     let mut ignored_after_panic = 0;
+    let mut self_events = 0;
     // ranges of `want` that may be absent: the timer of the first incarnation's task that was pending at the shutdown is
     // still delivered to the restarted module as an empty (handler-less) event; whether such a stale wake-up is
     // delivered at all is not this property's business, but if it is, it has to be bracketed like any other event
@@ -502,6 +526,12 @@ pub fn run_case(case: &Case) -> Result<(bool, Vec<&'static str>), Failure> {
                 if bracket(*i, *t, Some(*id), None, &mut want, &mut want_sink, &mut consumed_early) {
                     seen.borrow_mut()[*i] += 1;
                     let seen_i = seen.borrow()[*i];
+                    if !dead.borrow()[*i] {
+                        for j in 0..selfs_of(mods[*i], &case.global) as u16 {
+                            self_events += 1;
+                            bracket(*i, *t, Some(5000 + j), Some(("echo", 0)), &mut want, &mut want_sink, &mut consumed_early);
+                        }
+                    }
                     if let Some((n, delay)) = restart_of(mods[*i]) {
                         if seen_i == n && !was_down[*i] {
                             was_down[*i] = true;
@@ -637,6 +667,9 @@ pub fn run_case(case: &Case) -> Result<(bool, Vec<&'static str>), Failure> {
     if mods.iter().any(|m| m.own_as_block && m.own.len() > g && g > 0) {
         labels.push("module-block-longer-than-global-stack");
     }
+    if self_events >= 2 {
+        labels.push(">=2-zero-delay-self-messages-from-one-handler");
+    }
     if restart_stage_events >= 2 {
         labels.push("restart-replays->=2-stages");
     }
@@ -655,7 +688,7 @@ impl Prop for C14 {
          id / consume-if(id % m == r) / also-send / send-on-event-end; events: start-up stages (0..2 per module), injected messages at distinct \
          instants, timer wake-ups of a task, a shutdown requested by the handler with a restart that replays the start-up stages (messages \
          that arrive while the module is down are dropped without any hook call), a handler panic that the module's stereotype declares caught (brackets closed all the same, nothing but tear-down afterwards), tear-down (also ending in an error: at_sim_end returns Err, or a joined task is still pending); \
-         handlers optionally forward to a sink, and (in modules that never shut down) emit bursts of up to 47 messages with delays 2,0,1,2,0,1,.. ms. Oracle: the complete hook/handler log of the target \
+         handlers optionally forward to a sink, and (in modules that never shut down) emit bursts of up to 47 messages with delays 2,0,1,2,0,1,.. ms and schedule 2..5 zero-delay messages to their own module (events of the same instant, each bracketed, in scheduling order). Oracle: the complete hook/handler log of the target \
          modules must equal the log produced by an independent interpretation of the stack rules (event_start 0..n-1 each once, incoming in that \
          order until consumed, handler iff not consumed and with the rewritten id, event_end n-1..0 each once, module elements after the global \
          ones, brackets contiguous); the sink receives the messages sent inside events by arrival time, in program order among equal arrival times. Non-trivial iff a stack has >= 2 elements \
@@ -695,8 +728,9 @@ impl Prop for C14 {
             any::<bool>(),
             prop_oneof![3 => Just(0u8), 1 => 21u8..48, 1 => 1u8..21],
             proptest::option::weighted(0.2, 0u8..3),
+            prop_oneof![3 => Just(0u8), 2 => 2u8..6],
         )
-            .prop_map(|(own, stages, wakes, msgs, handler_sends, end_err, pending_join, restart, own_as_block, handler_burst, panic_on)| ModSpec {
+            .prop_map(|(own, stages, wakes, msgs, handler_sends, end_err, pending_join, restart, own_as_block, handler_burst, panic_on, handler_selfs)| ModSpec {
                 own,
                 stages,
                 wakes,
@@ -708,6 +742,7 @@ impl Prop for C14 {
                 own_as_block,
                 handler_burst,
                 panic_on,
+                handler_selfs,
             });
         (proptest::collection::vec(elem, 0..5), proptest::collection::vec(m, 1..3), proptest::bool::weighted(0.25))
             .prop_map(|(global, mods, via_ndl)| Case { global, mods, via_ndl })
